@@ -37,6 +37,13 @@ func runOSProc(n int64, lang int64, seed int64) {
 		recNewMnemonic(n, lang, nil)
 	}
 	src.script, src.pos, src.after = nil, 0, "data"
+	// sources whose output has a special shape (all zero, leading zero byte, all ones, one bit): what comes out of
+	// NewMnemonic is the encoding of exactly those bytes
+	for _, pat := range []string{"zero", "lead0", "ones", "lead0ff", "onebit"} {
+		src.pattern, src.total = pat, 0
+		recNewMnemonic(n, lang, nil)
+	}
+	src.pattern = ""
 	swapSource(osRandReader(), "os")
 	emit(Event{"op": "OSMark", "id": 3})
 	mark("BEGIN")
